@@ -251,7 +251,10 @@ def fk_actions(C):
         ifs = [st for st in fn.body if isinstance(st, ast.If) and ast.unparse(st.test) == 'self.cascade is not None']
         expect(len(ifs) == 1, 'cascade branch of SOForeignKey.%s not found' % meth)
         top = ifs[0]
-        expect(ast.unparse(top.orelse[0]).startswith('action = '), 'else branch of cascade in %s' % meth)
+        expect(isinstance(top.orelse[0], ast.Assign) and len(top.orelse[0].targets) == 1
+               and isinstance(top.orelse[0].targets[0], ast.Name) and isinstance(top.orelse[0].value, ast.Constant),
+               'else branch of cascade in %s' % meth)
+        act_name = top.orelse[0].targets[0].id
         none_action = top.orelse[0].value.value
         inner = top.body[0]
         expect(isinstance(inner, ast.If) and ast.unparse(inner.test) == "self.cascade == 'null'", 'cascade == null test in %s' % meth)
@@ -260,6 +263,9 @@ def fk_actions(C):
         expect(isinstance(el, ast.If) and ast.unparse(el.test) == 'self.cascade', 'cascade truth test in %s' % meth)
         true_action = el.body[0].value.value
         false_action = el.orelse[0].value.value
+        for br in (inner.body[0], el.body[0], el.orelse[0]):
+            expect(isinstance(br, ast.Assign) and [ast.unparse(t) for t in br.targets] == [act_name],
+                   'the cascade branches of %s do not assign the same local' % meth)
         got = (none_action, true_action, false_action, null_action)
         if res is None:
             res = got
@@ -343,8 +349,20 @@ def extract(repo):
     ep = C.ordered_consts('SOEnumCol', '_checkType')
     expect(len(ep) == 3 and ep[0] == ', ', 'SOEnumCol._checkType constants: %r' % (ep,))
     _, ckfn = C.lookup(['SOEnumCol'], '_checkType')
-    expect('sqlbuilder.sqlrepr(v, db)' in ast.unparse(ckfn) and [a.arg for a in ckfn.args.args] == ['self', 'db'],
-           'SOEnumCol._checkType no longer renders the values with sqlrepr(v, db)')
+    ck_params = [a.arg for a in ckfn.args.args]
+
+    def _renders_with_param(fn, params):
+        for n in ast.walk(fn):
+            if isinstance(n, ast.ListComp) and len(n.generators) == 1 and isinstance(n.generators[0].target, ast.Name) \
+                    and isinstance(n.elt, ast.Call) and ast.unparse(n.elt.func) == 'sqlbuilder.sqlrepr' \
+                    and len(n.elt.args) == 2 and isinstance(n.elt.args[0], ast.Name) \
+                    and n.elt.args[0].id == n.generators[0].target.id and isinstance(n.elt.args[1], ast.Name) \
+                    and len(params) == 2 and n.elt.args[1].id == params[1] \
+                    and ast.unparse(n.generators[0].iter) == 'self.enumValues' and not n.generators[0].ifs:
+                return True
+        return False
+    expect(_renders_with_param(ckfn, ck_params),
+           'SOEnumCol._checkType no longer renders the values with sqlrepr(<value>, <its dialect parameter>)')
     ef = C.ordered_consts('SOEnumCol', '_firebirdType')
     expect(len(ef) == 4 and ef[0] == ', ' and ef[1] == 'firebird' and ef[2] == ep[1], 'SOEnumCol._firebirdType constants: %r' % (ef,))
     mchk = re.fullmatch(r'(\w+) \(%s( in \()%s(\)\))', ep[1])
@@ -379,6 +397,7 @@ def extract(repo):
     _, ex = C.lookup(['SOCol'], '_extraSQL')
     order = []
     kws = {}
+    acc_names = set()
     for st in strip_doc(ex.body):
         if isinstance(st, ast.If):
             test = ast.unparse(st.test)
@@ -392,14 +411,29 @@ def extract(repo):
             else:
                 raise ExtractError('unknown condition in _extraSQL: %s' % test)
             expect(len(st.body) == 1 and not st.orelse, '_extraSQL branch %s has an unexpected body' % test)
+            # `<list local>.append(<text>)`: matched on the AST shape; the local's name is free
+            call = st.body[0].value if len(st.body) == 1 and isinstance(st.body[0], ast.Expr) else None
+            ok = (isinstance(call, ast.Call) and isinstance(call.func, ast.Attribute) and call.func.attr == 'append'
+                  and isinstance(call.func.value, ast.Name) and len(call.args) == 1 and not call.keywords)
+            expect(ok, '_extraSQL appends %s' % app)
+            acc_names.add(call.func.value.id)
+            arg = call.args[0]
+            m2 = None
             if kind == 'default':
-                m2 = re.fullmatch(r"result\.append\('(\w+) %s' % self\.defaultSQL\)", app)
-            else:
-                m2 = re.fullmatch(r"result\.append\('([\w ]+)'\)", app)
+                if isinstance(arg, ast.BinOp) and isinstance(arg.op, ast.Mod) and isinstance(arg.left, ast.Constant) \
+                        and isinstance(arg.left.value, str) and ast.unparse(arg.right) == 'self.defaultSQL':
+                    m2 = re.fullmatch(r"(\w+) %s", arg.left.value)
+            elif isinstance(arg, ast.Constant) and isinstance(arg.value, str):
+                m2 = re.fullmatch(r"([\w ]+)", arg.value)
             expect(m2, '_extraSQL appends %s' % app)
             order.append(kind)
             kws[kind] = m2.group(1)
     expect(sorted(order) == ['default', 'notNull', 'unique'], '_extraSQL conditions: %r' % (order,))
+    exb = strip_doc(ex.body)
+    expect(len(acc_names) == 1 and isinstance(exb[0], ast.Assign) and ast.unparse(exb[0].value) == '[]'
+           and [ast.unparse(t) for t in exb[0].targets] == list(acc_names)
+           and isinstance(exb[-1], ast.Return) and ast.unparse(exb[-1].value) in acc_names,
+           '_extraSQL no longer builds and returns one list')
 
     # ---- connections
     ids = {d: id_suffixes(repo, d) for d in DIALECTS}
@@ -420,12 +454,20 @@ def extract(repo):
     # ---- which side of a RelatedJoin creates / drops the link table
     so_cls = find_class(parse(repo, 'sqlobject/main.py'), 'SQLObject')
 
-    def link_key(fname):
+    def join_loops(fname):
+        """the `for <x> in cls._getJoinsToCreate() / cls.sqlmeta.joins` loops of `fname` (any loop variable name)"""
         fn = find_func(so_cls, fname)
+        return [n for n in ast.walk(fn) if isinstance(n, ast.For) and isinstance(n.target, ast.Name)
+                and ast.unparse(n.iter) in ('cls._getJoinsToCreate()', 'cls.sqlmeta.joins')]
+
+    def link_key(fname):
+        loops = join_loops(fname)
+        expect(len(loops) == 1, 'join loop of %s: %d loops' % (fname, len(loops)))
+        var = re.escape(loops[0].target.id)
         found = []
-        for node in ast.walk(fn):
+        for node in ast.walk(loops[0]):
             if isinstance(node, ast.If) and len(node.body) == 1 and isinstance(node.body[0], ast.Continue):
-                m4 = re.fullmatch(r'join\.soClass\.([\w.]+) > join\.otherClass\.([\w.]+)', ast.unparse(node.test))
+                m4 = re.fullmatch(var + r'\.soClass\.([\w.]+) > ' + var + r'\.otherClass\.([\w.]+)', ast.unparse(node.test))
                 if m4:
                     found.append((m4.group(1), m4.group(2)))
         expect(len(found) == 1 and found[0][0] == found[0][1], 'ownership test of %s: %r' % (fname, found))
@@ -434,12 +476,9 @@ def extract(repo):
         return key
     def iterates_joins_to_create(fname):
         """the join loop of `fname` runs over `cls._getJoinsToCreate()` (so it applies that function's tests)"""
-        fn = find_func(so_cls, fname)
-        loops = [n for n in ast.walk(fn) if isinstance(n, ast.For) and ast.unparse(n.target) == 'join']
+        loops = join_loops(fname)
         expect(len(loops) == 1, 'join loop of %s: %d loops' % (fname, len(loops)))
-        it = ast.unparse(loops[0].iter)
-        expect(it in ('cls._getJoinsToCreate()', 'cls.sqlmeta.joins'), 'join loop of %s iterates %s' % (fname, it))
-        return it == 'cls._getJoinsToCreate()'
+        return ast.unparse(loops[0].iter) == 'cls._getJoinsToCreate()'
     drop_shares = iterates_joins_to_create('dropJoinTables')
     link_create = link_key('_getJoinsToCreate')
     link_drop = link_create if drop_shares else link_key('dropJoinTables')
@@ -459,7 +498,19 @@ def extract(repo):
     create_passes = passes_flag('createTable', 'createJoinTables', 'ifNotExists')
 
     def dedupes(fname):
-        return 'join.intermediateTable in [j.intermediateTable for j in joins]' in ast.unparse(find_func(so_cls, fname))
+        """`if <x>.intermediateTable in [<y>.intermediateTable for <y> in <acc>]: continue` inside the join loop"""
+        for loop in join_loops(fname):
+            for node in ast.walk(loop):
+                if isinstance(node, ast.If) and len(node.body) == 1 and isinstance(node.body[0], ast.Continue) \
+                        and isinstance(node.test, ast.Compare) and len(node.test.ops) == 1 \
+                        and isinstance(node.test.ops[0], ast.In) \
+                        and ast.unparse(node.test.left) == loop.target.id + '.intermediateTable':
+                    lc = node.test.comparators[0]
+                    if isinstance(lc, ast.ListComp) and len(lc.generators) == 1 and not lc.generators[0].ifs \
+                            and isinstance(lc.generators[0].target, ast.Name) and isinstance(lc.generators[0].iter, ast.Name) \
+                            and ast.unparse(lc.elt) == lc.generators[0].target.id + '.intermediateTable':
+                        return True
+        return False
     create_dedupes = dedupes('_getJoinsToCreate')
     drop_dedupes = create_dedupes if drop_shares else dedupes('dropJoinTables')
     expect(iterates_joins_to_create('createJoinTables'), 'createJoinTables no longer iterates _getJoinsToCreate()')
